@@ -39,13 +39,16 @@ Qed.
 
 (* the possible element types of the fragment *)
 Lemma gfrag_ty_cases c : gfrag c = true ->
-  (exists d, so_ty (type_of c) = TNum d) \/ so_ty (type_of c) = TUnk \/ (exists sz u, so_ty (type_of c) = TList sz None u).
+  (exists d, so_ty (type_of c) = TNum d) \/ so_ty (type_of c) = TUnk \/ (exists sz u, so_ty (type_of c) = TList sz None u) \/
+  (exists ks ts, so_ty (type_of c) = TRec ks ts).
 Proof.
-  unfold type_of. induction c using content_ind'; intros Hf; cbn [gfrag] in Hf; try discriminate; cbn [type_of_p so_ty strflag]; auto.
+  unfold type_of. induction c using content_ind'; intros Hf; cbn [gfrag] in Hf; try discriminate; cbn [type_of_p so_ty strflag];
+    try (apply andb_true_iff in Hf as [_ Hf]); auto.
   - destruct shape as [|n [|? ?]]; try discriminate. left. cbn. eauto.
-  - right. right. eauto.
-  - right. right. eauto.
-  - right. right. eauto.
+  - right. right. left. eauto.
+  - right. right. left. eauto.
+  - right. right. left. eauto.
+  - right. right. right. eauto.
   - destruct arr; [discriminate|]. apply IHc, Hf.
 Qed.
 
@@ -63,8 +66,8 @@ Lemma sg_singletons f T xs tl :
   sg (S f) None None T (map (fun x => Some [x]) xs) (IAt 0 :: tl) None =
   do r <- se_ f T xs tl None; Ok (fst r, reinsert (map (fun x => Some [x]) xs) (snd r)).
 Proof.
-  rewrite sg_IAt. cbn [szchk bind present_adv].
   replace (map (fun x : value => Some [x]) xs) with (map Some (map (fun x : value => [x]) xs)) by (rewrite map_map; reflexivity).
+  rewrite sg_IAt by (rewrite has_none_somes; reflexivity). cbn [szchk bind present_adv].
   rewrite present_somes, mapM_map.
   replace (mapM (fun x : value => do j <- wrap_at (zlen [x]) 0; get [x] j) xs) with (Ok (A := list value) xs); [reflexivity|].
   symmetry. rewrite <- (map_id xs) at 2. rewrite <- mapM_pure. apply mapM_ext_in. intros x _. reflexivity.
@@ -76,65 +79,119 @@ Proof.
   apply reinsert_somes. rewrite map_length. exact H.
 Qed.
 
+(* ---------------------------------------------------------------- the side condition *)
+(* [sc items T]: walking the tuple over an array with element type T, no positional item (and no
+   ellipsis that still has to skip a level) arrives at a record.  (Positional items at a record slice
+   every field: outside the fragment proved here.) *)
+Fixpoint sc_ell (sctl : ty -> bool) (d : Z) (tlnil : bool) (T : ty) {struct T} : bool :=
+  match T with
+  | TOpt T' => sc_ell sctl d tlnil T'
+  | TList sz None t =>
+      if tlnil then true
+      else if (fst (minmax t) =? d) && (snd (minmax t) =? d) then sctl T
+      else if (fst (minmax t) =? d) || (snd (minmax t) =? d) then true
+      else sc_ell sctl d tlnil t
+  | TRec _ _ =>
+      if tlnil then true
+      else if (fst (minmax T) - 1 =? d) && (snd (minmax T) - 1 =? d) then sctl T
+      else if (fst (minmax T) - 1 =? d) || (snd (minmax T) - 1 =? d) then true
+      else false
+  | _ => true
+  end.
+Fixpoint sc (items : list item) : ty -> bool :=
+  match items with
+  | [] => fun _ => true
+  | it :: tl =>
+      match it with
+      | IAt _ | IRange _ _ _ | IArray _ => fun T => match so_ty T with TList _ None t => sc tl t | TRec _ _ => false | _ => true end
+      | INewAxis => sc tl
+      | IEllipsis => sc_ell (sc tl) (dim_items tl) (match tl with [] => true | _ => false end)
+      | IField k => fun T => match proj_ty k T with Ok T' => sc tl T' | Err _ => true end
+      | IFields ks => fun T => match projs_ty ks T with Ok T' => sc tl T' | Err _ => true end
+      end
+  end.
+
+Lemma sc_ell_so_ty F d b T : sc_ell F d b T = sc_ell F d b (so_ty T).
+Proof. induction T; cbn [so_ty sc_ell]; auto. Qed.
+Lemma sc_opt items : forall T, sc items (TOpt T) = sc items T.
+Proof.
+  induction items as [|it tl IH]; intros T; [reflexivity|]. destruct it; cbn [sc so_ty sc_ell proj_ty projs_ty]; auto.
+  - destruct (proj_ty k T); cbn [rmap]; auto.
+  - destruct (projs_ty ks T); cbn [rmap]; auto.
+Qed.
+Lemma sc_so_ty items T : sc items T = sc items (so_ty T).
+Proof. induction T; cbn [so_ty]; auto. rewrite sc_opt. exact IHT. Qed.
+Lemma sc_ow items T U : optwrap T U -> sc items T = sc items U.
+Proof. induction 1; [reflexivity|]. rewrite sc_opt. assumption. Qed.
+
+Lemma sc_positional head tl T :
+  positional head = true -> basic_item head = true -> sc (head :: tl) T = true ->
+  is_rec T = false /\ (forall sz t, so_ty T = TList sz None t -> sc tl t = true).
+Proof.
+  intros _ Hb H. unfold is_rec. destruct head; try discriminate; cbn [sc] in H; destruct (so_ty T) as [| |sz [?|] t| | |];
+    try discriminate; (split; [reflexivity|]); intros sz' t' E; inversion E; subst; exact H.
+Qed.
+
 (* ---------------------------------------------------------------- the statements, relative to fuel and depth bounds *)
 Definition PSE (Nm Ns : nat) (K : Z) (items : list item) : Prop :=
-  forall fm fs c T xs, (Nm <= fm)%nat -> (Ns <= fs)%nat -> tdepth T <= K ->
-    Valid None c -> gfrag c = true -> to_list c = Ok xs -> er T = er (type_of c) ->
+  forall fm fs c T xs, (Nm <= fm)%nat -> (Ns <= fs)%nat -> tdepth T <= K -> sc items T = true ->
+    Valid None c -> gfrag c = true -> to_list c = Ok xs -> optwrap T (type_of c) ->
     R (zlen xs) (gn fm c items None) (se_ fs T xs items None).
 Definition PSG (Nm Ns : nat) (K : Z) (items : list item) : Prop :=
-  forall fm fs c T xs sz t ls, (Nm <= fm)%nat -> (Ns <= fs)%nat -> tdepth T <= K ->
-    Valid None c -> gfrag c = true -> to_list c = Ok xs -> er T = er (type_of c) ->
+  forall fm fs c T xs sz t ls, (Nm <= fm)%nat -> (Ns <= fs)%nat -> tdepth T <= K -> sc items T = true ->
+    Valid None c -> gfrag c = true -> to_list c = Ok xs -> optwrap T (type_of c) ->
     so_ty T = TList sz None t -> mapM as_list xs = Ok ls ->
     R (zlen xs) (gn fm c items None) (sg fs None sz t ls items None).
 
 Lemma PSE_mono Nm Ns K items Nm' Ns' K' :
   PSE Nm Ns K items -> (Nm <= Nm')%nat -> (Ns <= Ns')%nat -> K' <= K -> PSE Nm' Ns' K' items.
-Proof. intros H ? ? ? fm fs c T xs ? ? ?. apply H; lia. Qed.
+Proof. intros H ? ? ? fm fs c T xs ? ? ? ?. apply H; try assumption; lia. Qed.
 Lemma PSG_mono Nm Ns K items Nm' Ns' K' :
   PSG Nm Ns K items -> (Nm <= Nm')%nat -> (Ns <= Ns')%nat -> K' <= K -> PSG Nm' Ns' K' items.
-Proof. intros H ? ? ? fm fs c T xs sz t ls ? ? ?. apply H; lia. Qed.
+Proof. intros H ? ? ? fm fs c T xs sz t ls ? ? ? ?. apply H; try assumption; lia. Qed.
 
 (* the list type seen from the layout *)
 Lemma list_type_of_c c T sz t :
-  er T = er (type_of c) -> so_ty T = TList sz None t -> exists u, so_ty (type_of c) = TList sz None u.
-Proof.
-  intros HT Hs. symmetry in HT. pose proof (er_view _ _ HT) as Hv. rewrite Hs in Hv. destruct Hv as (u & Hu & _). eauto.
-Qed.
+  optwrap T (type_of c) -> so_ty T = TList sz None t -> so_ty (type_of c) = TList sz None t.
+Proof. intros HT Hs. rewrite <- (ow_so_ty _ _ HT). exact Hs. Qed.
 
 (* nothing left, at a list-typed node *)
 Lemma sg_done f c T xs sz t ls :
-  Valid None c -> to_list c = Ok xs -> er T = er (type_of c) -> so_ty T = TList sz None t -> mapM as_list xs = Ok ls ->
+  Valid None c -> to_list c = Ok xs -> optwrap T (type_of c) -> so_ty T = TList sz None t -> mapM as_list xs = Ok ls ->
   R (zlen xs) (Ok c) (sg (S f) None sz t ls [] None).
 Proof.
-  intros HV Hl HT Hs Hls. rewrite sg_nil. cbn [R]. destruct (list_type_of_c c T sz t HT Hs) as [u Hu].
+  intros HV Hl HT Hs Hls. rewrite sg_nil. cbn [R]. pose proof (list_type_of_c c T sz t HT Hs) as Hu.
   exists (TList sz None t), xs. split; [|split; [|split]].
-  - rewrite (as_list_inv xs ls Hls (list_values c xs sz u HV Hl Hu)). reflexivity.
-  - rewrite <- HT, <- (er_so_ty T), Hs. reflexivity.
+  - rewrite (as_list_inv xs ls Hls (list_values c xs sz t HV Hl Hu)). reflexivity.
+  - rewrite <- (ow_er _ _ HT), <- (er_so_ty T), Hs. reflexivity.
   - exact Hl.
   - reflexivity.
 Qed.
 
 Lemma PSE_nil K : PSE 1 0 K [].
 Proof.
-  intros fm fs c T xs Hfm _ _ HV Hfr Hl HT. destruct fm as [|fm]; [lia|]. rewrite gn_nil, se_nil. cbn [R]. exists T, xs. auto.
+  intros fm fs c T xs Hfm _ _ _ HV Hfr Hl HT. destruct fm as [|fm]; [lia|]. rewrite gn_nil, se_nil. cbn [R]. exists T, xs.
+  split; [reflexivity|]. split; [apply ow_er, HT|auto].
 Qed.
 Lemma PSG_nil K : PSG 1 1 K [].
 Proof.
-  intros fm fs c T xs sz t ls Hfm Hfs _ HV Hfr Hl HT Hs Hls.
+  intros fm fs c T xs sz t ls Hfm Hfs _ _ HV Hfr Hl HT Hs Hls.
   destruct fm as [|fm]; [lia|]. destruct fs as [|fs]; [lia|]. rewrite gn_nil. eapply sg_done; eassumption.
 Qed.
 
 (* positional head *)
 Lemma PSE_positional head tl Nm Ns K :
-  basic_item head = true -> PSE Nm Ns K tl -> PSE (4 + Nm) (1 + Ns) (K + 1) (head :: tl).
+  basic_item head = true -> has_array tl = false -> PSE Nm Ns K tl -> PSE (4 + Nm) (1 + Ns) (K + 1) (head :: tl).
 Proof.
-  intros Hh IH fm fs c T xs Hfm Hfs HK HV Hfr Hl HT.
-  apply (positional_step head tl Hh Nm Ns K IH 3%nat); try assumption; try lia. eapply valid_wd, HV.
+  intros Hh Hna IH fm fs c T xs Hfm Hfs HK Hsc HV Hfr Hl HT.
+  assert (Hp : positional head = true) by (destruct head; try discriminate; reflexivity).
+  destruct (sc_positional head tl T Hp Hh Hsc) as [Hrec HQ].
+  apply (positional_step head tl Hh Hna Nm Ns K (fun t => sc tl t = true) IH 3%nat); try assumption; try lia. eapply valid_wd, HV.
 Qed.
 Lemma PSG_of_PSE head tl Nm Ns K :
   positional head = true -> PSE Nm Ns K (head :: tl) -> PSG Nm Ns K (head :: tl).
 Proof.
-  intros Hp H fm fs c T xs sz t ls Hfm Hfs HK HV Hfr Hl HT Hs Hls.
+  intros Hp H fm fs c T xs sz t ls Hfm Hfs HK Hsc HV Hfr Hl HT Hs Hls.
   rewrite <- (se_at_list fs T xs head tl sz t ls None Hp Hs Hls). apply H; assumption.
 Qed.
 
@@ -164,14 +221,14 @@ Qed.
 
 Lemma PSE_newaxis tl Nm Ns K : PSE Nm Ns K tl -> PSE (1 + Nm) (1 + Ns) K (INewAxis :: tl).
 Proof.
-  intros IH fm fs c T xs Hfm Hfs HK HV Hfr Hl HT.
+  intros IH fm fs c T xs Hfm Hfs HK Hsc HV Hfr Hl HT.
   destruct fm as [|fm]; [lia|]. destruct fs as [|fs]; [lia|].
   rewrite gn_INewAxis by (apply gfrag_not_nd, Hfr). rewrite se_INewAxis, sg_singletons.
   apply R_newaxis. apply R_reinsert_id; [|reflexivity]. apply IH; assumption || lia.
 Qed.
 Lemma PSG_newaxis tl Nm Ns K : PSG Nm Ns K tl -> PSG (1 + Nm) (1 + Ns) K (INewAxis :: tl).
 Proof.
-  intros IH fm fs c T xs sz t ls Hfm Hfs HK HV Hfr Hl HT Hs Hls.
+  intros IH fm fs c T xs sz t ls Hfm Hfs HK Hsc HV Hfr Hl HT Hs Hls.
   destruct fm as [|fm]; [lia|]. destruct fs as [|fs]; [lia|].
   rewrite gn_INewAxis by (apply gfrag_not_nd, Hfr). rewrite sg_INewAxis.
   apply R_newaxis. eapply IH; eassumption || lia.
@@ -182,8 +239,8 @@ Lemma se_IEllipsis_list f T xs tl adv sz t ls :
   so_ty T = TList sz None t -> mapM as_list xs = Ok ls ->
   se_ f T xs (IEllipsis :: tl) adv = sg f None sz t ls (IEllipsis :: tl) adv.
 Proof. intros Hs Hl. unfold se_, list_elem_ty, str_of_ty. rewrite Hs, Hl. reflexivity. Qed.
-Lemma se_IEllipsis_leaf f T xs tl adv :
-  (exists d, so_ty T = TNum d) \/ so_ty T = TUnk ->
+Lemma se_IEllipsis_other f T xs tl adv :
+  (forall sz t, so_ty T <> TList sz None t) ->
   se_ f T xs (IEllipsis :: tl) adv =
   let (mn, mx) := minmax T in
   let d := dim_items tl in
@@ -194,7 +251,9 @@ Lemma se_IEllipsis_leaf f T xs tl adv :
       then sg f None None T (map (fun x => Some [x]) xs) (IAt 0 :: tl) adv
       else Err EValue
   end.
-Proof. intros [[d Hs]|Hs]; unfold se_; rewrite Hs; reflexivity. Qed.
+Proof.
+  intros Hn. unfold se_. destruct (so_ty T) as [| |sz [b|] t| | |] eqn:E; try reflexivity. exfalso. eapply Hn. reflexivity.
+Qed.
 
 Lemma zmax_list_ge d l : d <= zmax_list d l.
 Proof. unfold zmax_list. induction l as [|x l IH]; cbn [fold_right]; lia. Qed.
@@ -206,8 +265,48 @@ Proof.
   - destruct ts as [|t0 rest]; [cbn; lia|]. inversion IH; subst. cbn [snd]. pose proof (zmax_list_ge (snd (minmax t0)) (map snd (map minmax (t0 :: rest)))). lia.
 Qed.
 
+Lemma sc_leaf items : forall T, (exists d, so_ty T = TNum d) \/ so_ty T = TUnk -> sc items T = true.
+Proof.
+  induction items as [|it tl IH]; intros T HT; [reflexivity|].
+  assert (Hpt : forall k, proj_ty k T = Err EValue \/ exists T', proj_ty k T = Ok T' /\ ((exists d, so_ty T' = TNum d) \/ so_ty T' = TUnk)).
+  { intros k. clear IH. induction T; cbn [so_ty] in HT; try (destruct HT as [[? ?]|?]; discriminate); cbn [proj_ty]; auto.
+    destruct (IHT HT) as [->|(T' & -> & H')]; cbn [rmap]; [left; reflexivity|right]. eexists. split; [reflexivity|exact H']. }
+  assert (Hpts : forall ks, projs_ty ks T = Err EValue \/ exists T', projs_ty ks T = Ok T' /\ ((exists d, so_ty T' = TNum d) \/ so_ty T' = TUnk)).
+  { intros ks. clear IH Hpt. induction T; cbn [so_ty] in HT; try (destruct HT as [[? ?]|?]; discriminate); cbn [projs_ty]; auto.
+    destruct (IHT HT) as [->|(T' & -> & H')]; cbn [rmap]; [left; reflexivity|right]. eexists. split; [reflexivity|exact H']. }
+  destruct it; cbn [sc].
+  - destruct HT as [[d ->]| ->]; reflexivity.
+  - destruct HT as [[d ->]| ->]; reflexivity.
+  - rewrite sc_ell_so_ty. destruct HT as [[d ->]| ->]; reflexivity.
+  - apply IH, HT.
+  - destruct HT as [[d ->]| ->]; reflexivity.
+  - destruct (Hpt k) as [->|(T' & -> & H')]; [reflexivity|apply IH, H'].
+  - destruct (Hpts ks) as [->|(T' & -> & H')]; [reflexivity|apply IH, H'].
+Qed.
+
+Lemma sc_ell_cons tl T : tl <> [] -> sc (IEllipsis :: tl) T = sc_ell (sc tl) (dim_items tl) false (so_ty T).
+Proof. intros H. cbn [sc]. rewrite sc_ell_so_ty. destruct tl; [congruence|reflexivity]. Qed.
+
+(* a positional item on a layout whose elements are not lists: too many indices *)
+Lemma positional_at_leaf head tl' fm c T xs :
+  basic_item head = true -> has_array tl' = false -> (4 <= fm)%nat -> (exists d, so_ty T = TNum d) \/ so_ty T = TUnk ->
+  Valid None c -> gfrag c = true -> to_list c = Ok xs -> optwrap T (type_of c) ->
+  gn fm c (head :: tl') None = Err EValue.
+Proof.
+  intros Hb Hna Hfm Hleaf HV Hfr Hl HT.
+  assert (Hp : positional head = true) by (destruct head; try discriminate; reflexivity).
+  assert (HR : R (zlen xs) (gn fm c (head :: tl') None) (se_ 1 T xs (head :: tl') None)).
+  { apply (positional_step head tl' Hb Hna 0 0 (tdepth T) (fun _ => False) ltac:(intros; contradiction) 3%nat); try assumption; try lia.
+    - eapply valid_wd, HV.
+    - unfold is_rec. destruct Hleaf as [[d ->]| ->]; reflexivity.
+    - intros sz t E. rewrite E in Hleaf. destruct Hleaf as [[? ?]|?]; discriminate. }
+  rewrite (se_at_leaf 1 T xs head tl' None Hp Hleaf) in HR.
+  apply R_err in HR as (e' & -> & -> & _). reflexivity.
+Qed.
+
 Section Ellipsis.
   Variables (tl : list item) (Nm Ns : nat).
+  Hypothesis Hnoarr : has_array tl = false.
 
   (* at a list-typed node, given the statement one level down *)
   Lemma ell_PSG K Nm' Ns' N M :
@@ -215,75 +314,79 @@ Section Ellipsis.
     PSG Nm Ns (K + 1) tl -> PSE Nm' Ns' K (IEllipsis :: tl) ->
     PSG N M (K + 1) (IEllipsis :: tl).
   Proof.
-    intros HN1 HN2 HM0 HM1 HM2 IHt IHe fm fs c T xs sz t ls Hfm Hfs HK HV Hfr Hl HT Hs Hls.
+    intros HN1 HN2 HM0 HM1 HM2 IHt IHe fm fs c T xs sz t ls Hfm Hfs HK Hsc HV Hfr Hl HT Hs Hls.
     destruct fm as [|fm]; [lia|]. destruct fs as [|fs]; [lia|].
     rewrite gn_IEllipsis by (apply gfrag_not_nd, Hfr). rewrite sg_IEllipsis.
-    symmetry in HT. rewrite (minmax_er_eq _ _ HT), (tdepth_list T sz t Hs). symmetry in HT.
-    destruct (minmax t) as [a b]. cbn [fst snd].
-    replace (a + 1 - 1) with a by lia. replace (b + 1 - 1) with b by lia.
+    rewrite <- (ow_minmax _ _ HT), (tdepth_list T sz t Hs).
     destruct tl as [|h tl'] eqn:Etl.
-    - destruct fs as [|fs]; [lia|]. eapply sg_done; eassumption.
-    - rewrite <- Etl in *. clear Etl.
-      destruct ((a =? dim_items tl) && (b =? dim_items tl)); [|destruct ((a =? dim_items tl) || (b =? dim_items tl))].
-      + eapply IHt; eassumption || lia.
-      + split; reflexivity.
-      + rewrite <- (se_at_list fs T xs (IRange None None (Some 1)) (IEllipsis :: tl) sz t ls None eq_refl Hs Hls).
-        apply (positional_step (IRange None None (Some 1)) (IEllipsis :: tl) eq_refl Nm' Ns' K IHe 3%nat); try assumption; try lia.
-        eapply valid_wd, HV.
+    { destruct (minmax t) as [a b]. destruct fs as [|fs]; [lia|]. eapply sg_done; eassumption. }
+    assert (Hne : h :: tl' <> []) by discriminate. rewrite <- Etl in *. clear Etl.
+    rewrite (sc_ell_cons tl T Hne), Hs in Hsc. cbn [sc_ell] in Hsc.
+    destruct (minmax t) as [a b]. cbn [fst snd] in *.
+    replace (a + 1 - 1) with a by lia. replace (b + 1 - 1) with b by lia.
+    destruct tl as [|h' tl''] eqn:Etl; [congruence|]. rewrite <- Etl in *. clear Etl.
+    destruct ((a =? dim_items tl) && (b =? dim_items tl)); [|destruct ((a =? dim_items tl) || (b =? dim_items tl))].
+    - eapply IHt; try eassumption; try lia. rewrite sc_so_ty, Hs. exact Hsc.
+    - split; reflexivity.
+    - rewrite <- (se_at_list fs T xs (IRange None None (Some 1)) (IEllipsis :: tl) sz t ls None eq_refl Hs Hls).
+      apply (positional_step (IRange None None (Some 1)) (IEllipsis :: tl) eq_refl Hnoarr Nm' Ns' K
+               (fun t0 => sc (IEllipsis :: tl) t0 = true) IHe 3%nat); try assumption; try lia.
+      + eapply valid_wd, HV.
+      + unfold is_rec. rewrite Hs. reflexivity.
+      + intros sz' t' E. rewrite Hs in E. inversion E; subst. rewrite (sc_ell_cons tl t' Hne), <- sc_ell_so_ty. exact Hsc.
   Qed.
 
-  (* at a leaf-typed node: the ellipsis stands for nothing *)
-  Lemma ell_leaf Nm' Ns' fm fs c T xs :
-    (1 + Nm <= fm)%nat -> (5 + Nm' <= fm)%nat -> (1 + Ns <= fs)%nat -> (2 + Ns' <= fs)%nat ->
-    PSE Nm Ns 1 tl -> PSE Nm' Ns' 0 (IEllipsis :: tl) ->
-    (exists d, so_ty T = TNum d) \/ so_ty T = TUnk ->
-    Valid None c -> gfrag c = true -> to_list c = Ok xs -> er T = er (type_of c) ->
+  (* at a node whose elements are not lists: the ellipsis stands for nothing *)
+  Lemma ell_other fm fs c T xs :
+    (5 <= fm)%nat -> (1 + Nm <= fm)%nat -> (2 <= fs)%nat -> (1 + Ns <= fs)%nat ->
+    PSE Nm Ns (tdepth T) tl ->
+    (exists d, so_ty T = TNum d) \/ so_ty T = TUnk \/ (exists ks ts, so_ty T = TRec ks ts) ->
+    sc (IEllipsis :: tl) T = true ->
+    Valid None c -> gfrag c = true -> to_list c = Ok xs -> optwrap T (type_of c) ->
     R (zlen xs) (gn fm c (IEllipsis :: tl) None) (se_ fs T xs (IEllipsis :: tl) None).
   Proof.
-    intros Hfm1 Hfm2 Hfs1 Hfs2 IHt IHe Hleaf HV Hfr Hl HT.
-    assert (Hmm : minmax T = (1, 1)).
-    { rewrite <- (minmax_so_ty T). destruct Hleaf as [[d ->]| ->]; reflexivity. }
-    assert (HdT : tdepth T <= 1) by (unfold tdepth; rewrite Hmm; cbn; lia).
+    intros Hfm0 Hfm1 Hfs0 Hfs1 IHt Hcase Hsc HV Hfr Hl HT.
+    assert (Hnl : forall sz t, so_ty T <> TList sz None t).
+    { intros sz t E. rewrite E in Hcase. destruct Hcase as [[? ?]|[?|(? & ? & ?)]]; discriminate. }
     destruct fm as [|fm]; [lia|]. destruct fs as [|fs]; [lia|].
-    rewrite gn_IEllipsis by (apply gfrag_not_nd, Hfr). rewrite (se_IEllipsis_leaf _ _ _ _ _ Hleaf).
-    symmetry in HT. rewrite (minmax_er_eq _ _ HT), Hmm. symmetry in HT.
-    change (1 - 1) with 0. cbv zeta.
-    destruct tl as [|h tl'] eqn:Etl; [cbn [R]; exists T, xs; auto|]. rewrite <- Etl in *. clear Etl.
-    destruct (0 =? dim_items tl); cbn [andb orb].
-    - rewrite sg_singletons. apply R_reinsert_id; [|reflexivity]. apply IHt; assumption || lia.
-    - assert (HR : R (zlen xs) (gn fm c (IRange None None (Some 1) :: IEllipsis :: tl) None)
-                     (se_ (S fs) T xs (IRange None None (Some 1) :: IEllipsis :: tl) None)).
-      { apply (positional_step (IRange None None (Some 1)) (IEllipsis :: tl) eq_refl Nm' Ns' 0 IHe 3%nat);
-          try assumption; try lia. eapply valid_wd, HV. }
-      rewrite (se_at_leaf (S fs) T xs (IRange None None (Some 1)) (IEllipsis :: tl) None eq_refl Hleaf) in HR.
-      apply R_err in HR as (e' & -> & -> & _). split; reflexivity.
+    rewrite gn_IEllipsis by (apply gfrag_not_nd, Hfr). rewrite (se_IEllipsis_other _ _ _ _ _ Hnl).
+    rewrite <- (ow_minmax _ _ HT).
+    destruct tl as [|h tl'] eqn:Etl.
+    { destruct (minmax T). cbn [R]. exists T, xs. split; [reflexivity|]. split; [apply ow_er, HT|auto]. }
+    assert (Hne : h :: tl' <> []) by discriminate. rewrite <- Etl in *. clear Etl.
+    rewrite (sc_ell_cons tl T Hne) in Hsc.
+    assert (Hmm : minmax (so_ty T) = minmax T) by apply minmax_so_ty.
+    destruct (minmax T) as [mn mx] eqn:Emm. cbv zeta.
+    destruct tl as [|h' tl''] eqn:Etl; [congruence|]. rewrite <- Etl in *. clear Etl.
+    destruct ((mn - 1 =? dim_items tl) && (mx - 1 =? dim_items tl)) eqn:EA.
+    - (* the ellipsis is empty *)
+      rewrite sg_singletons. apply R_reinsert_id; [|reflexivity].
+      apply IHt; try assumption; try lia.
+      destruct Hcase as [Hc|[Hc|(ks & ts & Hc)]].
+      + apply sc_leaf. left. exact Hc.
+      + apply sc_leaf. right. exact Hc.
+      + rewrite Hc in Hsc, Hmm. cbn [sc_ell] in Hsc. rewrite Hmm in Hsc. cbn [fst snd] in Hsc. rewrite EA in Hsc.
+        rewrite sc_so_ty, Hc. exact Hsc.
+    - destruct ((mn - 1 =? dim_items tl) || (mx - 1 =? dim_items tl)) eqn:EB; [split; reflexivity|].
+      destruct Hcase as [Hc|[Hc|(ks & ts & Hc)]].
+      3:{ rewrite Hc in Hsc, Hmm. cbn [sc_ell] in Hsc. rewrite Hmm in Hsc. cbn [fst snd] in Hsc. rewrite EA, EB in Hsc. discriminate. }
+      all: assert (Hleaf : (exists d, so_ty T = TNum d) \/ so_ty T = TUnk) by auto.
+      all: rewrite (positional_at_leaf (IRange None None (Some 1)) (IEllipsis :: tl) fm c T xs eq_refl Hnoarr) by (assumption || lia).
+      all: split; reflexivity.
   Qed.
 
   (* at any node, given the list-typed case at the same level *)
-  Lemma ell_PSE K Nm' Ns' N M :
-    0 <= K -> (1 + Nm <= N)%nat -> (5 + Nm' <= N)%nat -> (1 + Ns <= M)%nat -> (2 + Ns' <= M)%nat ->
-    PSG N M (K + 1) (IEllipsis :: tl) -> PSE Nm Ns (K + 1) tl -> PSE Nm' Ns' K (IEllipsis :: tl) ->
-    PSE N M (K + 1) (IEllipsis :: tl).
+  Lemma ell_PSE K N M :
+    (5 <= N)%nat -> (1 + Nm <= N)%nat -> (2 <= M)%nat -> (1 + Ns <= M)%nat ->
+    PSG N M K (IEllipsis :: tl) -> PSE Nm Ns K tl ->
+    PSE N M K (IEllipsis :: tl).
   Proof.
-    intros HK0 HN1 HN2 HM1 HM2 IHg IHt IHe fm fs c T xs Hfm Hfs HK HV Hfr Hl HT.
-    pose proof (er_view T _ HT) as Hv.
-    assert (IHt1 : PSE Nm Ns 1 tl) by (eapply PSE_mono; [exact IHt|lia..]).
-    assert (IHe0 : PSE Nm' Ns' 0 (IEllipsis :: tl)) by (eapply PSE_mono; [exact IHe|lia..]).
-    destruct (gfrag_ty_cases c Hfr) as [[d Hc]|[Hc|(sz & u & Hc)]]; rewrite Hc in Hv.
-    - eapply (ell_leaf Nm' Ns'); try eassumption; try lia. eauto.
-    - eapply (ell_leaf Nm' Ns'); try eassumption; try lia. eauto.
-    - destruct Hv as (t & Hs & _).
-      destruct (as_list_total xs (list_values c xs sz u HV Hl Hc)) as [ls Hls].
-      rewrite (se_IEllipsis_list fs T xs tl None sz t ls Hs Hls). eapply IHg; eassumption || lia.
-  Qed.
-
-  Lemma gfrag_depth_pos c T : gfrag c = true -> er T = er (type_of c) -> 1 <= tdepth T.
-  Proof.
-    intros Hfr HT. pose proof (er_view T _ HT) as Hv. unfold tdepth. rewrite <- (minmax_so_ty T).
-    destruct (gfrag_ty_cases c Hfr) as [[d Hc]|[Hc|(sz & u & Hc)]]; rewrite Hc in Hv.
-    - rewrite Hv. cbn. lia.
-    - rewrite Hv. cbn. lia.
-    - destruct Hv as (t & -> & _). cbn [minmax]. pose proof (tdepth_nonneg t). unfold tdepth in *. destruct (minmax t). cbn [snd] in *. lia.
+    intros HN0 HN1 HM0 HM1 IHg IHt fm fs c T xs Hfm Hfs HK Hsc HV Hfr Hl HT.
+    pose proof (ow_so_ty _ _ HT) as Hso.
+    destruct (gfrag_ty_cases c Hfr) as [[d Hc]|[Hc|[(sz & u & Hc)|(ks & ts & Hc)]]]; rewrite <- Hso in Hc.
+    3:{ destruct (as_list_total xs (list_values c xs sz u HV Hl ltac:(rewrite <- Hso; exact Hc))) as [ls Hls].
+        rewrite (se_IEllipsis_list fs T xs tl None sz u ls Hc Hls). eapply IHg; eassumption || lia. }
+    all: eapply ell_other; try eassumption; try lia; [eapply PSE_mono; [exact IHt|lia..]|eauto 6].
   Qed.
 
   Hypothesis HNs : (1 <= Ns)%nat.
@@ -291,188 +394,23 @@ Section Ellipsis.
   Lemma ellipsis_step (D : nat) :
     PSE Nm Ns (Z.of_nat D) tl -> PSG Nm Ns (Z.of_nat D) tl ->
     forall k, (k <= D)%nat ->
-      PSE (5 * k + 1 + Nm) (2 * k + 1 + Ns) (Z.of_nat k) (IEllipsis :: tl) /\
-      PSG (5 * k + 1 + Nm) (2 * k + 1 + Ns) (Z.of_nat k) (IEllipsis :: tl).
+      PSG (5 * k + 5 + Nm) (2 * k + 1 + Ns) (Z.of_nat k) (IEllipsis :: tl).
   Proof.
     intros IHe IHg. induction k as [|k IHk]; intros Hk.
-    - split.
-      + intros fm fs c T xs _ _ HK _ Hfr _ HT. pose proof (gfrag_depth_pos c T Hfr HT). lia.
-      + intros fm fs c T xs sz t ls _ _ HK _ Hfr _ HT. pose proof (gfrag_depth_pos c T Hfr HT). lia.
-    - destruct (IHk ltac:(lia)) as [IHke IHkg].
+    - intros fm fs c T xs sz t ls _ _ HK _ _ _ _ _ Hs _.
+      rewrite (tdepth_list' T sz t Hs) in HK. pose proof (tdepth_nonneg t). lia.
+    - specialize (IHk ltac:(lia)).
       replace (Z.of_nat (S k)) with (Z.of_nat k + 1) by lia.
-      assert (IHt_e : PSE Nm Ns (Z.of_nat k + 1) tl) by (eapply PSE_mono; [exact IHe|lia..]).
+      assert (IHt_e : PSE Nm Ns (Z.of_nat k) tl) by (eapply PSE_mono; [exact IHe|lia..]).
       assert (IHt_g : PSG Nm Ns (Z.of_nat k + 1) tl) by (eapply PSG_mono; [exact IHg|lia..]).
-      assert (Hg : PSG (5 * S k + 1 + Nm) (2 * S k + 1 + Ns) (Z.of_nat k + 1) (IEllipsis :: tl)).
-      { eapply (ell_PSG (Z.of_nat k) (5 * k + 1 + Nm) (2 * k + 1 + Ns)); try eassumption; lia. }
-      split; [|exact Hg].
-      eapply (ell_PSE (Z.of_nat k) (5 * k + 1 + Nm) (2 * k + 1 + Ns)); try eassumption; lia.
+      assert (IHke : PSE (5 * k + 5 + Nm) (2 * k + 1 + Ns) (Z.of_nat k) (IEllipsis :: tl)).
+      { apply ell_PSE; try assumption; lia. }
+      eapply (ell_PSG (Z.of_nat k) (5 * k + 5 + Nm) (2 * k + 1 + Ns)); try eassumption; lia.
+  Qed.
+  Lemma ellipsis_step_PSE (D : nat) :
+    PSE Nm Ns (Z.of_nat D) tl -> PSG Nm Ns (Z.of_nat D) tl ->
+    PSE (5 * D + 5 + Nm) (2 * D + 1 + Ns) (Z.of_nat D) (IEllipsis :: tl).
+  Proof.
+    intros IHe IHg. apply ell_PSE; try assumption; try lia. apply (ellipsis_step D); auto.
   Qed.
 End Ellipsis.
-
-(* ---------------------------------------------------------------- the tuple induction *)
-Definition basic4 (it : item) : bool :=
-  match it with IAt _ | IRange _ _ _ | INewAxis | IEllipsis => true | _ => false end.
-(* fuel the model / the specification may use for one item, on layouts of depth at most D *)
-Definition wm (D : nat) (it : item) : nat := match it with IEllipsis => 5 * D + 1 | INewAxis => 1 | _ => 4 end.
-Definition wsp (D : nat) (it : item) : nat := match it with IEllipsis => 2 * D + 1 | _ => 1 end.
-Fixpoint cost_m (D : nat) (items : list item) : nat :=
-  match items with [] => 1 | it :: tl => wm D it + cost_m D tl end.
-Fixpoint cost_s (D : nat) (items : list item) : nat :=
-  match items with [] => 1 | it :: tl => wsp D it + cost_s D tl end.
-Lemma cost_s_pos D items : (1 <= cost_s D items)%nat.
-Proof. induction items; cbn [cost_s]; lia. Qed.
-
-Theorem gn_refines_sg (D : nat) : forall items, forallb basic4 items = true ->
-  PSE (cost_m D items) (cost_s D items) (Z.of_nat D) items /\
-  PSG (cost_m D items) (cost_s D items) (Z.of_nat D) items.
-Proof.
-  induction items as [|h tl IH]; intros Hb.
-  - split; [apply (PSE_mono 1 0 (Z.of_nat D) [] _ _ _ (PSE_nil _)); cbn; lia|apply PSG_nil].
-  - cbn [forallb] in Hb. apply andb_true_iff in Hb as [Hh Hb]. destruct (IH Hb) as [IHe IHg]. cbn [cost_m cost_s].
-    destruct h; try discriminate; cbn [wm wsp].
-    + assert (He : PSE (4 + cost_m D tl) (1 + cost_s D tl) (Z.of_nat D) (IAt i :: tl)).
-      { eapply PSE_mono; [apply (PSE_positional (IAt i) tl _ _ _ eq_refl IHe)|lia..]. }
-      split; [exact He|apply PSG_of_PSE; [reflexivity|exact He]].
-    + assert (He : PSE (4 + cost_m D tl) (1 + cost_s D tl) (Z.of_nat D) (IRange start stop step :: tl)).
-      { eapply PSE_mono; [apply (PSE_positional (IRange start stop step) tl _ _ _ eq_refl IHe)|lia..]. }
-      split; [exact He|apply PSG_of_PSE; [reflexivity|exact He]].
-    + destruct (ellipsis_step tl _ _ (cost_s_pos D tl) D IHe IHg D (le_n D)) as [He Hg].
-      split; [eapply PSE_mono; [exact He|lia..]|eapply PSG_mono; [exact Hg|lia..]].
-    + split; [apply PSE_newaxis, IHe|apply PSG_newaxis, IHg].
-Qed.
-
-(* ---------------------------------------------------------------- the whole operation *)
-Lemma top_wrap c vs :
-  Valid None c -> to_list c = Ok vs ->
-  Valid None (Regular c (clen c) 1) /\ to_list (Regular c (clen c) 1) = Ok [VList vs] /\
-  type_of (Regular c (clen c) 1) = TList (Some (zlen vs)) None (type_of c).
-Proof.
-  intros HV Hl. pose proof (to_list_len _ _ Hl) as Hn. pose proof (zlen_nonneg vs). split; [|split].
-  - constructor; [exact I|lia|lia|intros _; exact HV].
-  - rewrite to_list_Regular, Hl. cbn [bind]. rewrite <- Hn. unfold chunks.
-    destruct (zlen vs <? 0) eqn:E; [lia|]. destruct (zlen vs =? 0) eqn:E0.
-    + assert (vs = []) by (apply zlen_0_nil; lia). subst. reflexivity.
-    + rewrite Z.div_same by lia. change (Z.to_nat 1) with 1%nat. cbn [chunks_nat rmap map].
-      rewrite take_all by lia. reflexivity.
-  - cbn [type_of type_of_p strflag]. rewrite Hn. reflexivity.
-Qed.
-
-Definition obs_spec (s : res (ty * list value)) : res (list value) := do r <- s; Ok (snd r).
-
-Lemma R_obs n m s : R n m s -> obs m = obs_spec s /\ obs m <> Err EFuel /\ obs m <> Err EOob.
-Proof.
-  destruct m as [c'|e]; cbn [R obs].
-  - intros (t' & ws & -> & _ & Hl & _). rewrite Hl. repeat split; discriminate.
-  - intros [-> ->]. repeat split; discriminate.
-Qed.
-
-(* number of list levels of the array (its own dimension included) *)
-Definition adepth (c : content) : nat := Z.to_nat (tdepth (type_of c)) + 1.
-
-(* any fuel covering the cost gives the same, fuel-independent answer: never EFuel, never EOob *)
-Theorem getitem_basic_fuel : forall items c vs fm fs,
-  forallb basic4 items = true -> Valid None c -> gfrag c = true -> to_list c = Ok vs ->
-  (cost_m (adepth c) items <= fm)%nat -> (cost_s (adepth c) items <= fs)%nat ->
-  obs (gn fm (Regular c (clen c) 1) items None) =
-  obs_spec (sg fs None (Some (zlen vs)) (type_of c) [Some vs] items None) /\
-  obs (gn fm (Regular c (clen c) 1) items None) <> Err EFuel /\
-  obs (gn fm (Regular c (clen c) 1) items None) <> Err EOob.
-Proof.
-  intros items c vs fm fs Hb HV Hfr Hl Hfm Hfs.
-  destruct (top_wrap c vs HV Hl) as (HVC & HlC & HtC).
-  destruct (gn_refines_sg (adepth c) items Hb) as [_ Hg].
-  apply (R_obs 1). change 1 with (zlen [VList vs]).
-  apply (Hg fm fs (Regular c (clen c) 1) (type_of (Regular c (clen c) 1)) [VList vs] (Some (zlen vs)) (type_of c) [Some vs]);
-    try assumption; try reflexivity.
-  - rewrite HtC. rewrite (tdepth_list' (TList (Some (zlen vs)) None (type_of c)) (Some (zlen vs)) (type_of c) eq_refl).
-    unfold adepth. pose proof (tdepth_nonneg (type_of c)). lia.
-Qed.
-
-(* the fuel [items_fuel] that [getitem_model] / [getitem_spec] run with covers the cost *)
-Definition fuel_ok (items : list item) (c : content) : bool :=
-  Nat.leb (cost_m (adepth c) items) (items_fuel items) && Nat.leb (cost_s (adepth c) items) (items_fuel items).
-
-Theorem getitem_refines_spec_partial : forall items c vs,
-  forallb basic4 items = true -> Valid None c -> gfrag c = true -> to_list c = Ok vs -> fuel_ok items c = true ->
-  obs (getitem_model items c) = getitem_spec items (type_of c) vs.
-Proof.
-  intros items c vs Hb HV Hfr Hl Hf. unfold fuel_ok in Hf. apply andb_true_iff in Hf as [H1 H2].
-  apply Nat.leb_le in H1. apply Nat.leb_le in H2. unfold getitem_model, getitem_spec.
-  apply (getitem_basic_fuel items c vs _ _ Hb HV Hfr Hl H1 H2).
-Qed.
-Theorem getitem_never_out_of_fuel : forall items c vs,
-  forallb basic4 items = true -> Valid None c -> gfrag c = true -> to_list c = Ok vs -> fuel_ok items c = true ->
-  obs (getitem_model items c) <> Err EFuel /\ getitem_spec items (type_of c) vs <> Err EFuel /\
-  obs (getitem_model items c) <> Err EOob /\ getitem_spec items (type_of c) vs <> Err EOob.
-Proof.
-  intros items c vs Hb HV Hfr Hl Hf.
-  pose proof (getitem_refines_spec_partial items c vs Hb HV Hfr Hl Hf) as He.
-  unfold fuel_ok in Hf. apply andb_true_iff in Hf as [H1 H2]. apply Nat.leb_le in H1. apply Nat.leb_le in H2.
-  destruct (getitem_basic_fuel items c vs _ _ Hb HV Hfr Hl H1 H2) as (_ & Hf1 & Hf2).
-  fold (getitem_model items c) in Hf1, Hf2. rewrite <- He. auto.
-Qed.
-
-(* when the fuel is enough: no ellipsis, or one ellipsis on a layout of depth at most 5 *)
-Definition nell (items : list item) : nat :=
-  length (filter (fun it => match it with IEllipsis => true | _ => false end) items).
-Lemma cost_bounds D items :
-  (cost_m D items <= 4 * length items + 5 * D * nell items + 1)%nat /\
-  (cost_s D items <= length items + 2 * D * nell items + 1)%nat.
-Proof.
-  unfold nell. induction items as [|h tl [IH1 IH2]]; cbn [cost_m cost_s length filter]; [lia|].
-  destruct h; cbn [wm wsp length]; lia.
-Qed.
-Lemma fuel_ok_no_ellipsis items c : nell items = O -> fuel_ok items c = true.
-Proof.
-  intros Hn. unfold fuel_ok. destruct (cost_bounds (adepth c) items) as [H1 H2]. rewrite Hn in H1, H2.
-  apply andb_true_iff. split; apply Nat.leb_le; unfold items_fuel; lia.
-Qed.
-Lemma fuel_ok_shallow items c : (nell items <= 1)%nat -> tdepth (type_of c) <= 5 -> fuel_ok items c = true.
-Proof.
-  intros Hn Hd. unfold fuel_ok. destruct (cost_bounds (adepth c) items) as [H1 H2].
-  assert (Ha : (adepth c <= 6)%nat) by (unfold adepth; lia).
-  assert (Hp : (adepth c * nell items <= 6)%nat) by nia.
-  apply andb_true_iff. split; apply Nat.leb_le; unfold items_fuel; nia.
-Qed.
-
-Corollary getitem_refines_spec_basic : forall items c vs,
-  forallb basic_item items = true -> Valid None c -> gfrag c = true -> to_list c = Ok vs ->
-  obs (getitem_model items c) = getitem_spec items (type_of c) vs.
-Proof.
-  intros items c vs Hb HV Hfr Hl. apply getitem_refines_spec_partial; try assumption.
-  - clear -Hb. induction items as [|h tl IH]; [reflexivity|]. cbn [forallb] in *. apply andb_true_iff in Hb as [Hh Hb].
-    rewrite (IH Hb), andb_true_r. destruct h; try discriminate; reflexivity.
-  - apply fuel_ok_no_ellipsis. clear -Hb. unfold nell. induction items as [|h tl IH]; [reflexivity|]. cbn [forallb filter] in *.
-    apply andb_true_iff in Hb as [Hh Hb]. destruct h; try discriminate; apply IH, Hb.
-Qed.
-
-(* layout independence (property C02): the sliced value depends on the layout only through its value and type *)
-Theorem layout_independent_getitem_partial : forall items a b vs,
-  forallb basic4 items = true -> Valid None a -> Valid None b -> gfrag a = true -> gfrag b = true ->
-  to_list a = Ok vs -> to_list b = Ok vs -> type_of a = type_of b ->
-  fuel_ok items a = true ->
-  obs (getitem_model items a) = obs (getitem_model items b).
-Proof.
-  intros items a b vs Hb HVa HVb Hfa Hfb Hla Hlb Hty Hf.
-  assert (Hf' : fuel_ok items b = true) by (unfold fuel_ok, adepth in *; rewrite <- Hty; exact Hf).
-  rewrite (getitem_refines_spec_partial items a vs), (getitem_refines_spec_partial items b vs), Hty by assumption.
-  reflexivity.
-Qed.
-
-Example getitem_refines_ex :
-  let c := ListOffset I64 [0; 2; 2; 3]
-             (IndexedOption I64 [1; -1; 0]
-                (Par None None (ListA I64 [0; 3] [3; 5]
-                   (Indexed I64 [4; 3; 2; 1; 0] (Numpy DInt64 [5] [DZ 1; DZ 2; DZ 3; DZ 4; DZ 5]))))) in
-  let items := [IRange None None (Some (-1)); IEllipsis; INewAxis; IAt (-1)] in
-  validb None c = true /\ gfrag c = true /\ forallb basic4 items = true /\ fuel_ok items c = true /\
-  to_list c = Ok [VList [VList [VNum (DZ 2); VNum (DZ 1)]; VNone]; VList []; VList [VList [VNum (DZ 5); VNum (DZ 4); VNum (DZ 3)]]] /\
-  obs (getitem_model items c) =
-    Ok [VList [VList [VList [VNum (DZ 3)]]; VList []; VList [VList [VNum (DZ 1)]; VList [VNone]]]] /\
-  obs (getitem_model [IAt 1; IAt 0] c) = Err EValue /\
-  obs (getitem_model [IAt 3] c) = Err EValue.
-Proof. vm_compute. repeat split. Qed.
-
-Print Assumptions getitem_refines_spec_partial.
-Print Assumptions getitem_never_out_of_fuel.
-Print Assumptions layout_independent_getitem_partial.
